@@ -199,6 +199,39 @@ def members_and_restores(ctx, n):
     return done
 
 
+def future_group(ctx, n):
+    """The storage holds a full group whose name sorts after today's (made while the clock was ahead, or copied in): the run
+    opens today's group, which is then not the last by name, and its first backup must be recoverable from that group alone."""
+    import os, random
+    from vlib import hist
+    done = 0
+    for i in range(n):
+        rng = random.Random(ctx.seed * 1000 + 900 + i)
+        w = hist.World(ctx, 8900 + i, rng, max_groups=3, max_per_group=1, nitems=1)
+        try:
+            for k in range(3):
+                w.write(os.path.join(w.items[0], 'f%d' % k), 1200 + i * 10 + k, rng.choice([30, 5000, 20000]))
+            assert w.backup(advance=5).rc == 0
+            g1, b1 = store.group_name(w.now), store.backup_name(w.now)
+            os.rename(os.path.join(w.root, g1, b1), os.path.join(w.root, g1, '2031.05.05-10:00:00'))
+            os.rename(os.path.join(w.root, g1), os.path.join(w.root, '2031.05.05'))
+            r = w.backup(advance=60)
+            g2, b2 = store.group_name(w.now), store.backup_name(w.now)
+            case = {'scenario': 'group-dated-in-the-future', 'index': i, 'rc': r.rc}
+            bd = os.path.join(w.root, g2, b2)
+            if not os.path.isdir(bd):
+                ctx.violation('property', 'with a full group dated in the future in the storage, the run did not open a group named by today\'s date: %s' % r.errors()[:2], {'case': case})
+                continue
+            for rec in store.read_manifest(bd):
+                if not rec['unique'] and rec['size'] > 0:
+                    ctx.violation('property', 'the first backup of group %s records %s as extern: its bytes are in no backup of that group' % (g2, rec['path']), {'case': case})
+                    break
+            done += 1
+        finally:
+            w.cleanup()
+    return done
+
+
 def check(ctx):
     aud = core.audit(ctx.prop)
     core.report_audit(ctx, aud)
@@ -212,6 +245,7 @@ def check(ctx):
     races = racing_writer(ctx, 4 if ctx.tier == 'quick' else 40)
     same = same_second(ctx, 6 if ctx.tier == 'quick' else 60)
     memb = members_and_restores(ctx, 4 if ctx.tier == 'quick' else 30)
+    fut = future_group(ctx, 2 if ctx.tier == 'quick' else 10)
     pub, st = dc.correspond(ctx, steps, dc.oracle_c02, 'dedup')
     distinct = {core.canon(dc.model_request(s)) for s in pub if s['earlier'] and len(s['new']['records'] or []) >= 2}
     ctx.coverage.update({
